@@ -162,9 +162,17 @@ def op_metadata(signed_ok, via='store'):
             if via == 'store':
                 mds = MetadataStore(ac_factory(), sp('wr').config)
                 mds.http = _Http({'https://md.example/fed': text})
-                mds.load('remote', url='https://md.example/fed', cert=world.crt('mdsigner'), node_name=node)
-                served = 'urn:vp:fed-idp' in list(mds.keys())
-                return {'accept': served, 'exc': None}
+                exc = None
+                try:
+                    mds.load('remote', url='https://md.example/fed', cert=world.crt('mdsigner'), node_name=node)
+                except Exception as e:
+                    exc = type(e).__name__
+                # whatever load() did, what counts is what the (long-lived) store serves afterwards
+                try:
+                    served = 'urn:vp:fed-idp' in list(mds.keys()) or bool(mds.single_sign_on_service('urn:vp:fed-idp', None))
+                except Exception:
+                    served = False
+                return {'accept': served, 'exc': exc}
             md = MetaDataFile(ac_factory(), path, cert=world.crt('mdsigner'), security=sp('wr').sec, node_name=node)
             ok = md.load()
             served = list(md.keys()) if hasattr(md, 'keys') else []
@@ -210,6 +218,38 @@ def op_other_response(how):
     return f
 
 
+def op_assertion_id_response():
+    """An IdP offering the AssertionIDRequest service keeps issued assertions; the stored assertion is asked for
+    twice (a failed first attempt must not turn the second answer into an unsigned one)."""
+    def f():
+        from saml2_tophat import saml
+        if ('idp', 'aidr') not in _c:
+            eps = {'single_sign_on_service': [(world.SSO_A, world.BINDING_HTTP_REDIRECT)],
+                   'assertion_id_request_service': [('https://idpa.example/aidr', 'urn:oasis:names:tc:SAML:2.0:bindings:URI')]}
+            _c[('idp', 'aidr')] = world.make_idp(TMP[0], [world.sp_md()], endpoints=eps)
+        srv = _c[('idp', 'aidr')]
+        try:
+            r = srv.create_authn_response({'givenName': [MARK[1]]}, 'req1', ACS_POST, SP_X, sign_assertion=True, authn={'class_ref': forge.PASSWORD},
+                                          name_id=saml.NameID(text=MARK[0], format=saml.NAMEID_FORMAT_TRANSIENT))
+            aid = r.assertion[0].id if hasattr(r, 'assertion') else None
+            if aid is None:
+                from saml2_tophat import samlp
+                aid = samlp.response_from_string(str(r)).assertion[0].id
+        except Exception as e:
+            return {'returned': False, 'exc': type(e).__name__, 'text': None}
+        out = None
+        for _attempt in (1, 2):
+            try:
+                out = srv.create_assertion_id_request_response(aid)
+            except Exception as e:
+                out = None
+                exc = type(e).__name__
+        if out is None:
+            return {'returned': False, 'exc': exc, 'text': None}
+        return {'returned': True, 'text': str(out), 'exc': None}
+    return f
+
+
 OPS = {}
 
 
@@ -242,6 +282,7 @@ def build_ops():
     OPS['create:logout_response(sign)'] = ('protect', op_other_response('logout-response'), {'resp': True})
     OPS['create:attribute_response(sign_response)'] = ('protect', op_other_response('attribute-response'), {'resp': True})
     OPS['create:logout_request(sign)'] = ('protect', op_other_response('logout-request'), {'req': True})
+    OPS['create:assertion_id_response(stored, asked twice)'] = ('protect', op_assertion_id_response(), {'root_signed': True})
     OPS['create:encrypt-with-request-certificate'] = ('protect', op_other_response('encrypt-with-request-certificate'), {'enc': True})
     # a tool that reports version 1.3 (verdict lines read 'Verification status: ...'): messages that do not verify
     OPS['parse:wr:resp-signed-BAD@tool-1.3'] = ('verify', with_version('1.3.4', op_parse('wr@1.3', 'resp-signed-BAD')), False)
@@ -273,6 +314,10 @@ def protected_ok(text, want):
         ok, why = oracle.strict_signature(d, root, ['idpA' if want.get('resp') else 'spX'])
         if not ok:
             return 'returned-message-not-signed:%s' % why
+    if want.get('root_signed'):
+        ok, why = oracle.strict_signature(d, root, ['idpA'])
+        if not ok:
+            return 'returned-assertion-not-signed:%s' % why
     if want.get('enc'):
         for m in MARK:
             if m in text:
